@@ -299,6 +299,12 @@ class PyExec:
             if data.tobytes() != before:
                 return "violation: fill.numpy modified an input array"
             return "ok"
+        if k == "ctors":
+            # ("ctors", kind, route, xs): constructor independence through one construction route (py-only)
+            import ctors
+
+            msg = ctors.check(op[1], op[2], op[3])
+            return ("violation: " + msg) if msg else "ok"
         if k == "denote":
             # ("denote", dst, empty, stream, filled): the model evaluates the closed-form specification of the
             # stream on the empty tree; on the implementation side the state to compare with is the filled tree
@@ -501,7 +507,7 @@ def expand(op, py):
     return op
 
 
-PY_ONLY_OPS = {"noshare", "check_faithful", "snap", "checksnap", "checksnap_if_raised", "checkeq", "hash", "iadd_pyonly"}
+PY_ONLY_OPS = {"ctors", "noshare", "check_faithful", "snap", "checksnap", "checksnap_if_raised", "checkeq", "hash", "iadd_pyonly"}
 
 
 def run_history(ops, model, check_states=True, py=None, replies=None, model_ops=None, expander=None):
